@@ -70,6 +70,8 @@ def _work1(chunk):
         "wall": time.time() - t0,
         "samples": ck.samples[:3],
         "visited": sorted(Interp.VISITED),
+        "cost_sites": I.cost_sites,
+        "stray": getattr(ck, "stray", {}),
     }
 
 
@@ -115,6 +117,13 @@ def run(facts_path, workers=None):
                 d[kk] += v[kk]
         agg["complete"] = agg["complete"] and r["complete"]
         agg.setdefault("visited", set()).update(r["visited"])
+        agg.setdefault("stray", {}).update({"%02x" % k: v for k, v in r.get("stray", {}).items()})
+        for k, v in r.get("cost_sites", {}).items():
+            d = agg.setdefault("cost_sites", {}).setdefault(k, [0, 0, None, v[3]])
+            d[0] += v[0]
+            d[1] += v[1]
+            if d[2] is None:
+                d[2] = v[2]
         for k, v in r["unknown_callees"].items():
             agg["unknown_callees"][k] = agg["unknown_callees"].get(k, 0) + v
     agg["wall"] = time.time() - t0
